@@ -521,6 +521,110 @@ theorem fits_basis_sparse_roundtrip (b : ModeBasis) (c : Csc) (g : Grid) (m : Na
     simp only [ModeBasis.denseArr, htm]
     rw [heta, cscToDense_denseToCsc _ _ _ _ hl]
 
+/-! ## which objects can be written to FITS (the guard "whenever it can be written" made explicit) -/
+
+/-- **Which fields `write_field` can write to FITS**: every field on a grid that is not separated
+(the values travel in the tree), and on a separated grid exactly the dtypes astropy takes for an
+image HDU (`fitsDtypeOk`; `bool`, `complex`, `float16` are refused with `KeyError`).  The write status
+`w=` of every real `write_field(…fits / fits.gz)` is compared with `writeFieldFits`. -/
+theorem fits_field_writable_iff (f : Field) (ts : List Nat)
+    (hshape : f.values.shape = ts ++ [f.grid.coords.size]) :
+    ((writeFieldFits f).toBool = true ↔
+      (f.grid.coords.isSeparated = false ∨ fitsDtypeOk f.values.dtype = true)) ∧
+    ((writeFieldFits f).toBool = false → writeFieldFits f = .error .key) := by
+  obtain ⟨⟨dt, shape, data⟩, g⟩ := f
+  simp only at hshape
+  subst hshape
+  unfold writeFieldFits
+  by_cases hsep : g.coords.isSeparated = true
+  · have hsize := Coords.size_eq g.coords hsep
+    have hprod : prod (ts ++ g.coords.shape) = prod (ts ++ [g.coords.size]) := by
+      simp [prod_append, prod_singleton, hsize]
+    by_cases hd : fitsDtypeOk dt = true <;>
+      simp [hsep, Arr.reshape, List.dropLast_concat, hprod, bind, Except.bind, hd, Except.toBool]
+  · simp [hsep, Except.toBool]
+
+example : (writeFieldFits ⟨⟨"c16", [6], [1, 2, 3, 4, 5, 6]⟩, exGridReg2⟩).map (fun _ => ()) = .error .key ∧
+    (writeFieldFits ⟨⟨"c16", [4], [1, 2, 3, 4]⟩,
+      ⟨.cartesian, .unstructured [⟨"f8", [4], [0, 1, 3, 4]⟩], .null⟩⟩).toBool = true := by
+  constructor <;> decide +kernel
+
+/-- **Fields through FITS, without the hypothesis "could be written"**: for every field whose
+dtype is accepted (or whose grid is not separated) the file is written *and* read back equal. -/
+theorem fits_field_roundtrip_total (f : Field) (ts : List Nat) (h : f.grid.Ok)
+    (hnd : 0 < f.grid.coords.ndim) (hshape : f.values.shape = ts ++ [f.grid.coords.size])
+    (hd : f.grid.coords.isSeparated = false ∨ fitsDtypeOk f.values.dtype = true) :
+    (writeFieldFits f).bind readFieldFits = .ok f := by
+  have hw := ((fits_field_writable_iff f ts hshape).1).2 hd
+  cases hfile : writeFieldFits f with
+  | error e => rw [hfile] at hw; cases hw
+  | ok file => exact fits_field_roundtrip f ts h hnd hshape file hfile
+
+/-- **Which mode bases `write_mode_basis` can write to FITS** (dense or sparse; `b.denseArr` is the
+matrix itself or `todense()` of the CSC matrix): every basis on a grid that is empty or not
+separated; on a separated grid the dtype must be one astropy accepts (else `KeyError`) and the grid
+regular (else `ValueError`: a separated grid has no `delta` for the WCS header). -/
+theorem fits_basis_writable_iff (b : ModeBasis) (g : Grid) (ts : List Nat) (m : Nat)
+    (hg : b.grid = some g) (hshape : b.denseArr.shape = ts ++ [g.coords.size, m]) :
+    ((writeBasisFits b).toBool = true ↔
+      (g.coords.size = 0 ∨ g.coords.isSeparated = false ∨
+        (fitsDtypeOk b.denseArr.dtype = true ∧ g.coords.isRegular = true))) ∧
+    ((writeBasisFits b).toBool = false →
+      writeBasisFits b = .error (if fitsDtypeOk b.denseArr.dtype then .value else .key)) := by
+  obtain ⟨tm, og⟩ := b
+  simp only at hg
+  subst hg
+  generalize hA : (ModeBasis.denseArr ⟨tm, some g⟩) = A at hshape
+  obtain ⟨dt, shape, data⟩ := A
+  simp only at hshape
+  subst hshape
+  have hsh : ts ++ [g.coords.size, m] = (ts ++ [g.coords.size]) ++ [m] :=
+    (List.append_assoc ts [g.coords.size] [m]).symm
+  unfold writeBasisFits
+  simp only [ModeBasis.toDict, bind, Except.bind, hA]
+  by_cases hz : g.coords.size = 0
+  · simp [hz, Except.toBool]
+  by_cases hsep : g.coords.isSeparated = true
+  · have hsize := Coords.size_eq g.coords hsep
+    have hprod : prod (m :: (ts ++ g.coords.shape)) = prod (m :: (ts ++ [g.coords.size])) := by
+      simp [prod, prod_append, hsize]
+    have hz' : (g.coords.size ≠ 0 && g.coords.isSeparated) = true := by simp [hz, hsep]
+    simp only [hz', if_true, hsh, List.getLastD_concat, List.dropLast_concat, Arr.moveLastToFront,
+      Arr.reshape, hprod]
+    by_cases hd : fitsDtypeOk dt = true <;> by_cases hr : g.coords.isRegular = true <;>
+      simp [hz, hsep, hd, hr, Except.toBool]
+  · simp [hz, hsep, Except.toBool]
+
+/-- **Dense mode bases through FITS, without the hypothesis "could be written".** -/
+theorem fits_basis_dense_roundtrip_total (b : ModeBasis) (a : Arr) (g : Grid) (ts : List Nat) (m : Nat)
+    (htm : b.tm = .dense a) (hg : b.grid = some g) (h : g.Ok) (hnd : 0 < g.coords.ndim)
+    (hshape : a.shape = ts ++ [g.coords.size, m]) (hdata : a.data.length = prod a.shape)
+    (hwr : g.coords.size = 0 ∨ g.coords.isSeparated = false ∨
+      (fitsDtypeOk a.dtype = true ∧ g.coords.isRegular = true)) :
+    (writeBasisFits b).bind readBasisFits = .ok b := by
+  have hda : b.denseArr = a := by simp [ModeBasis.denseArr, htm]
+  have hw := ((fits_basis_writable_iff b g ts m hg (hda ▸ hshape)).1).2 (hda ▸ hwr)
+  cases hfile : writeBasisFits b with
+  | error e => rw [hfile] at hw; cases hw
+  | ok file => exact fits_basis_dense_roundtrip b a g ts m htm hg h hnd hshape hdata file hfile
+
+/-- **Sparse mode bases through FITS, without the hypothesis "could be written".** -/
+theorem fits_basis_sparse_roundtrip_total (b : ModeBasis) (c : Csc) (g : Grid) (m : Nat)
+    (htm : b.tm = .sparse c) (hg : b.grid = some g) (h : g.Ok) (hnd : 0 < g.coords.ndim)
+    (hshape : c.shape = [g.coords.size, m])
+    (hwr : g.coords.size = 0 ∨ g.coords.isSeparated = false ∨
+      (fitsDtypeOk c.data.dtype = true ∧ g.coords.isRegular = true)) :
+    ∃ b', (writeBasisFits b).bind readBasisFits = .ok b' ∧ b'.isSparse = true ∧ b'.grid = b.grid ∧
+      b'.denseArr = b.denseArr := by
+  have hda : b.denseArr = cscToDense c := by simp [ModeBasis.denseArr, htm]
+  have hsh : b.denseArr.shape = [] ++ [g.coords.size, m] := by
+    rw [hda]; exact (cscToDense_shape c _ _ hshape).1
+  have hdt : b.denseArr.dtype = c.data.dtype := by rw [hda]; rfl
+  have hw := ((fits_basis_writable_iff b g [] m hg hsh).1).2 (hdt ▸ hwr)
+  cases hfile : writeBasisFits b with
+  | error e => rw [hfile] at hw; cases hw
+  | ok file => exact fits_basis_sparse_roundtrip b c g m htm hg h hnd hshape file hfile
+
 /-! ## grid files and the ASDF layer
 
 `lib : AsdfLib` is the ASDF library, `AsdfFaithful lib` the named assumption about it (trees come
@@ -636,6 +740,18 @@ theorem asdf_basis_roundtrip (lib : AsdfLib) (hl : AsdfFaithful lib) (b : ModeBa
   exact hr
 
 example : AsdfFaithful AsdfLib.observed := asdfFaithful_observed
+
+/-- Grid files (asdf, FITS) and asdf files of fields are always written; an asdf file of a mode basis
+exactly when the basis has a grid (else `to_dict` raises `AttributeError`,
+`modebasis_without_grid_has_no_dict`).  The harness reports any refused asdf write of an object that
+has a dictionary form. -/
+theorem asdf_writable_iff (lib : AsdfLib) (g : Grid) (f : Field) (b : ModeBasis) :
+    (writeGridAsdf lib g).toBool = true ∧ (writeGridFits lib g).toBool = true ∧
+    (writeFieldAsdf lib f).toBool = true ∧
+    ((writeBasisAsdf lib b).toBool = true ↔ b.grid.isSome = true) := by
+  refine ⟨rfl, rfl, rfl, ?_⟩
+  obtain ⟨tm, og⟩ := b
+  cases og <;> simp [writeBasisAsdf, ModeBasis.toDict, bind, Except.bind, Except.toBool]
 
 /-! ## Old — the unrepaired read/write paths and their counterexamples
 
